@@ -60,13 +60,13 @@ func onceCase(hseed uint64) {
 		mu.Unlock()
 	}
 	type plan struct {
-		kind   int // 0 value, 1 error value, 2 f sees its context cancelled
+		kind   int // 0 value, 1 error value, 2 f sees its context cancelled, 3 same but returns the error wrapped (as net/http does)
 		cancel bool
 		j1, j2 uint64
 	}
 	plans := make([]plan, n)
 	for g := range plans {
-		plans[g] = plan{kind: []int{0, 0, 1, 2, 2}[r.Intn(5)], cancel: r.Chance(1, 4), j1: r.U64(), j2: r.U64()}
+		plans[g] = plan{kind: []int{0, 0, 1, 2, 2, 3}[r.Intn(6)], cancel: r.Chance(1, 4), j1: r.U64(), j2: r.U64()}
 	}
 	errVal := make([]error, n)
 	for g := range errVal {
@@ -101,7 +101,7 @@ func onceCase(hseed uint64) {
 			p := plans[g]
 			ctx, cancel := context.WithCancel(context.Background())
 			defer cancel()
-			if p.cancel || p.kind == 2 {
+			if p.cancel || p.kind >= 2 {
 				go func() { jitter(p.j2); jitter(p.j2 >> 3); cancel() }()
 			}
 			jitter(p.j1)
@@ -120,15 +120,18 @@ func onceCase(hseed uint64) {
 				}
 				<-ctx.Done()
 				logf("c%d", g)
+				if p.kind == 3 {
+					return nil, fmt.Errorf("Get \"http://auth.test/token\": %w", ctx.Err())
+				}
 				return nil, ctx.Err()
 			})
 			switch {
 			case first:
-				if !called || p.kind == 2 || decode(res, err) != map[int]int{0: 100 + g, 1: 200 + g}[p.kind] {
+				if !called || p.kind >= 2 || decode(res, err) != map[int]int{0: 100 + g, 1: 200 + g}[p.kind] {
 					addFail("once-first-result", "goroutine %d got (true, %v, %v) which is not the result of its own function", g, res, err)
 				}
 			case called:
-				if p.kind != 2 || res != nil || err != ctx.Err() {
+				if p.kind < 2 || res != nil || !errors.Is(err, ctx.Err()) {
 					addFail("once-cancel-result", "goroutine %d ran f to a cancellation but got (false, %v, %v)", g, res, err)
 				}
 			case res == nil && err != nil && ctx.Err() != nil && err == ctx.Err():
@@ -188,7 +191,8 @@ func setCase(hseed uint64) {
 	id := run.NewID()
 	rep := map[string]string{"op": "K", "hseed": fmt.Sprintf("%d", hseed)}
 	flavour := common.Pick(r, []string{"shared", "single"})
-	cache := newCache(flavour)
+	tc := &traceCache{inner: newCache(flavour)}
+	var cache auth.Cache = tc
 	hosts := []string{"reg0.test", "reg1.test:5000"}
 	keys := []string{"", "repository:a:pull", "repository:a:pull repository:b:push"}
 	n := 3 + r.Intn(8)
@@ -197,11 +201,12 @@ func setCase(hseed uint64) {
 		scheme    auth.Scheme
 		j         uint64
 		fail      bool
+		cancel    bool
 	}
 	calls := make([]call, n)
 	h0, k0 := common.Pick(r, hosts), common.Pick(r, keys)
 	for i := range calls {
-		calls[i] = call{host: h0, key: k0, scheme: auth.SchemeBearer, j: r.U64(), fail: r.Chance(1, 8)}
+		calls[i] = call{host: h0, key: k0, scheme: auth.SchemeBearer, j: r.U64(), fail: r.Chance(1, 8), cancel: r.Chance(1, 6)}
 		if r.Chance(1, 3) {
 			calls[i].host = common.Pick(r, hosts)
 		}
@@ -232,15 +237,23 @@ func setCase(hseed uint64) {
 			if !tight {
 				jitter(c.j)
 			}
-			tok, err := cache.Set(context.Background(), c.host, c.scheme, c.key, func(context.Context) (string, error) {
+			ctx, cancelCtx := context.WithCancel(context.Background())
+			defer cancelCtx()
+			if c.cancel {
+				go func() { jitter(c.j >> 11); jitter(c.j >> 17); cancelCtx() }()
+			}
+			tok, err := cache.Set(ctx, c.host, c.scheme, c.key, func(ctx context.Context) (string, error) {
 				mu.Lock()
 				fetched++
 				mu.Unlock()
 				if !tight {
 					jitter(c.j >> 7)
 				}
+				if ctx.Err() != nil {
+					return "", ctx.Err()
+				}
 				if c.fail {
-					return "", errors.New("fetch failed")
+					return "", fmt.Errorf("fetch %d failed", i)
 				}
 				return tokenOf(c, i), nil
 			})
@@ -253,14 +266,6 @@ func setCase(hseed uint64) {
 			want := fmt.Sprintf("tok|%s|%s|", c.host, c.key)
 			if !strings.HasPrefix(tok, want) {
 				sig := "set-cross-key"
-				if flavour == "single" && c.key == "" && strings.HasPrefix(tok, fmt.Sprintf("tok|%s|", c.host)) {
-					// known finding: the single-context cache keeps its host-only copy
-					// (key "") in the same concurrentCache as the scoped tokens, so a Set
-					// with the EMPTY key shares the in-flight entry (host, scheme, "") with
-					// the host-only follow-up Set of a concurrent call and receives that
-					// call's token (same host, other scopes)
-					sig = "single-cache-empty-key-coalesced"
-				}
 				mu.Lock()
 				fails = append(fails, violation{sig, fmt.Sprintf("%s cache: Set(%q, Bearer, %q) returned %q, a token fetched for another host or scope set", flavour, c.host, c.key, tok)})
 				mu.Unlock()
@@ -272,6 +277,7 @@ func setCase(hseed uint64) {
 		run.OracleFail(id, "set-hang", "concurrentCache.Set did not return within 20s", rep)
 		return
 	}
+	setTraceCase(tc, "set-"+flavour)
 	run.Evaluations++
 	run.Count("set/" + flavour)
 	run.Count(fmt.Sprintf("set/fetches-saved=%d", min(n-fetched, 9)))
@@ -308,7 +314,13 @@ func mixCase(hseed uint64) {
 	w.cur = nil
 	w.alwaysScope = true
 	w.gate = func(string) { time.Sleep(200 * time.Microsecond) }
-	client := &auth.Client{Client: &http.Client{Transport: w}, Cache: newCache(flavour), Credential: w.credentialFunc(), ForceAttemptOAuth2: oauth2}
+	var tc *traceCache
+	var cache auth.Cache
+	if flavour != "none" {
+		tc = &traceCache{inner: newCache(flavour)}
+		cache = tc
+	}
+	client := &auth.Client{Client: &http.Client{Transport: w}, Cache: cache, Credential: w.credentialFunc(), ForceAttemptOAuth2: oauth2}
 	n := 4 + r.Intn(12)
 	type job struct {
 		g            *regState
@@ -316,21 +328,40 @@ func mixCase(hseed uint64) {
 		hints        []string
 		j            uint64
 		valid        bool
+		cancelFetch  bool // the caller's context is cancelled while its token request is in flight
+		cancel       context.CancelFunc
 	}
+	type jobKey struct{}
 	jobs := make([]job, n)
+	w.fetchHook = func(req *http.Request) error {
+		if jb, ok := req.Context().Value(jobKey{}).(*job); ok && jb.cancelFetch {
+			time.Sleep(300 * time.Microsecond)
+			jb.cancel()
+			return req.Context().Err()
+		}
+		return nil
+	}
 	for i := range jobs {
 		g := common.Pick(r, w.regs)
 		jobs[i] = job{g: g, repo: common.Pick(r, []string{"lib/a", "lib/a", "lib/b"}), method: common.Pick(r, []string{"GET", "GET", "DELETE"}),
 			hints: genHints(r), j: r.U64(), valid: w.validFor(g, oauth2) && g.mode != modeWeird}
+		if r.Chance(1, 6) {
+			jobs[i].cancelFetch = true
+			jobs[i].valid = false
+		}
 	}
 	results := make([]string, n)
 	var wg sync.WaitGroup
-	for i, jb := range jobs {
+	for i := range jobs {
+		jb := &jobs[i]
 		wg.Add(1)
-		go func(i int, jb job) {
+		go func(i int, jb *job) {
 			defer wg.Done()
 			jitter(jb.j)
-			ctx := context.Background()
+			ctx, cancel := context.WithCancel(context.Background())
+			defer cancel()
+			jb.cancel = cancel
+			ctx = context.WithValue(ctx, jobKey{}, jb)
 			if len(jb.hints) > 0 {
 				ctx = auth.WithScopesForHost(ctx, jb.g.host, clone(jb.hints)...)
 			}
@@ -348,6 +379,7 @@ func mixCase(hseed uint64) {
 		run.OracleFail(id, "do-hang", "concurrent Client.Do calls did not return within 30s", rep)
 		return
 	}
+	setTraceCase(tc, "mix-"+flavour)
 	w.mu.Lock()
 	defer w.mu.Unlock()
 	run.Evaluations++
@@ -368,7 +400,9 @@ func mixCase(hseed uint64) {
 		if c := w.perReq[fmt.Sprintf("%d", i)]; c > 3 {
 			run.OracleFail(id, "budget", fmt.Sprintf("concurrent mix %d: request %d was sent %d times to the registry", hseed, i, c), rep)
 		}
-		if jb.valid && !w.noScope && results[i] != "=ok" {
+		if jb.valid && results[i] == "=transport" {
+			run.OracleFail(id, "foreign-cancellation", fmt.Sprintf("concurrent mix %d (cache %s): request %d to %s was not cancelled and no send of it failed, but it ended with another request's cancellation", hseed, flavour, i, jb.g.host), rep)
+		} else if jb.valid && !w.noScope && results[i] != "=ok" {
 			run.OracleFail(id, "valid-credentials-rejected", fmt.Sprintf("concurrent mix %d (cache %s): request %d to %s holds valid credentials but ended with %s", hseed, flavour, i, jb.g.host, results[i]), rep)
 		}
 	}
